@@ -101,6 +101,8 @@ def run(ctx, col, tier):
     col.guard(r_table, ctx, col, names_cls, fields)
     reader_pat = col.guard(r_fmt, ctx, col, fields, tier)
     col.guard(r_nl, ctx, col)
+    from ..rules import smalllints2 as _s2
+    _s2.run_pathio(ctx, col, ('swcgeom.core.swc_utils.io', 'swcgeom.core.tree', 'swcgeom.core.swc', 'swcgeom.core.population'))
     col.guard(r_hdr, ctx, col, names_cls, reader_pat)
     col.guard(r_sent, ctx, col, names_cls)
     col.guard(r_src, ctx, col)
